@@ -122,10 +122,12 @@ func runC18(c *Ctx, r *Rec) {
 			nD3++
 			construct := name + "/" + p.Name()
 			bad := operandDiscipline(c, info, fd, i, map[string]bool{})
-			if bad == "" {
-				bad = mutationBeforeOperandRead(c, info, fd, p)
+			if bad == "" || strings.HasPrefix(bad, "skip:") {
+				if b2 := mutationBeforeOperandRead(c, info, fd, p); b2 != "" {
+					bad = b2
+				}
 			}
-			r.check(bad == "", "D3-operand-snapshot", construct, c.pos(fd.Pos()), "the operand is read only through GetSize/IsEmpty/AsArray/GetIterator (or handed to a method that does so)", bad)
+			r.verdict("D3-operand-snapshot", construct, c.pos(fd.Pos()), "the operand is read only through GetSize/IsEmpty/AsArray/GetIterator (or handed to a method that does so)", bad)
 		}
 	}
 	// the universal constructors of the module: the collection returned is built in the call,
@@ -212,7 +214,7 @@ func operandDiscipline(c *Ctx, info *types.Info, fd *ast.FuncDecl, pi int, visit
 	bad := ""
 	ast.Inspect(fd.Body, func(x ast.Node) bool {
 		id, ok := x.(*ast.Ident)
-		if !ok || info.Uses[id] != p || bad != "" {
+		if !ok || info.Uses[id] != p || (bad != "" && !strings.HasPrefix(bad, "skip:")) {
 			return true
 		}
 		chain := pathTo(fd.Body, id)
@@ -262,7 +264,7 @@ func operandDiscipline(c *Ctx, info *types.Info, fd *ast.FuncDecl, pi int, visit
 					if len(paramObjs(tinfo, t)) <= ai || !isSequentialParam(paramObjs(tinfo, t)[ai].Type()) {
 						continue
 					}
-					if b := operandDiscipline(c, tinfo, t, ai, visiting); b != "" {
+					if b := operandDiscipline(c, tinfo, t, ai, visiting); b != "" && (bad == "" || strings.HasPrefix(bad, "skip:")) {
 						bad = b
 					}
 				}
@@ -272,6 +274,13 @@ func operandDiscipline(c *Ctx, info *types.Info, fd *ast.FuncDecl, pi int, visit
 		// assignment to another variable, comparison, etc.
 		switch parent.(type) {
 		case *ast.BinaryExpr:
+			return true
+		}
+		// a type assertion or type switch on the operand looks behind the interface: what is done
+		// with the concrete value is a design of its own (a bulk copy from the live backing
+		// array, say, is overlap-safe) that this rule does not follow
+		if ta, ok := parent.(*ast.TypeAssertExpr); ok && ta.X == ast.Expr(id) {
+			bad = fmt.Sprintf("skip: the operand %s is looked at through a type assertion at %s: the use of the concrete value is not followed", p.Name(), c.pos(id.Pos()))
 			return true
 		}
 		bad = fmt.Sprintf("the operand %s escapes the snapshot discipline at %s (%T)", p.Name(), c.pos(id.Pos()), parent)
